@@ -263,7 +263,7 @@ def check_pair(prop, pair, tier, keep):
                 replace = [r for r in replace if r.split("/")[0] != m.group(1)]
                 continue
             break
-        res["replace"] = replace
+        res["replace"] = replace + ["assumed body (%s): %s" % (pair["stub_bodies"]["src"], f) for f in pair.get("stub_bodies", {}).get("remove", [])]
         res["cmds"].append(" ".join(cmd))
         open(os.path.join(d, "gi.log"), "w").write(out + err)
         if rc != 0:
